@@ -19,67 +19,67 @@ CHECKS = {
             "target, duality is an involution, prior values are captured before the edit and every captured value reaches the inverse, the "
             "group inverse reverses, every constructed sub-edit is recorded in order, annotators react to inverses, and undo/redo apply the "
             "right recorded inverse once; captured ids and attribute values are tested only with `is None` (0 / 0.0 / False survive capture), and "
-            "the paint-driven action hands every primitive the pixels its caller already changed, _apply never rewrites the fields the inverse is built from, and inverse() has no write effect on the recorded action. Does not decide equality of recomputed values."),
+            "the paint-driven action hands every primitive the pixels its caller already changed, _apply never rewrites the fields the inverse is built from, and inverse() has no write effect on the recorded action. Does not decide equality of recomputed values. Shared obligations added late: one history step per top-level action (R02.6), and no query of the data model answers from a memo that some writer forgets to drop (memo discipline)."),
     "C02": ("part", "4 C02",
             "who-may-write analysis + symbolic sequence algebra over the history methods + per-path registration counting",
             "Decides stack ownership, the per-call shape of add_new_action / undo / redo as sequence expressions over the entry stacks "
             "(pending redo inverses are moved in order, never discarded or reversed), the pointer's linear form and that every user action "
-            "registers exactly once per top-level use, never when nested or refused, and that inverse() leaves the recorded step unchanged (it is inverted again by later undos). Does not decide the induction over all sequences."),
+            "registers exactly once per top-level use, never when nested or refused, and that inverse() leaves the recorded step unchanged (it is inverted again by later undos). Does not decide the induction over all sequences. Also carries the inverse-duality obligations R01.1-R01.5 (the timeline is only as good as the inverse that is replayed)."),
     "C03": ("core", "4 C03",
             "abstract interpretation of user-action constructors with inlined primitives; degree/time facts at every add_edge; who-may-call",
             "Decides that every place an edge can enter a solution graph carries the merge, division and strict time-order guards on every "
             "condition-consistent path (axioms AX-FOREST / AX-TRACKPATH at action start), that add_edge has a single gate, that the "
-            "neighbour query is strict and returns the time-nearest members (list ordered by time before a positional choice), and that undo/redo keep timeline order."),
+            "neighbour query is strict and returns the time-nearest members (list ordered by time before a positional choice), and that undo/redo keep timeline order. Shared obligations: one history step per top-level action (R02.6), inverse() leaves the recorded step alone (R02.8), no positional read of the per-track lists (R06.11), memo discipline of the data-model queries (Tracks.get_time is what the time-order guard reads)."),
     "C04": ("part", "4 C04",
             "classification of structural steps from interpreter terms/degree facts, matched against relabel primitives on the same path",
             "Decides that no edit path changes segment adjacency without the relabel it needs and that the ids used are fresh or read in "
-            "the current state (stale reads are reported), and that the track neighbours used for splice / bridge are the time-nearest members. Does not decide the iff over all node pairs."),
+            "the current state (stale reads are reported), and that the track neighbours used for splice / bridge are the time-nearest members. Does not decide the iff over all node pairs. Shared obligations: history shape, R02.6, R02.8, memo discipline, and the tracklet key threaded from the feature dictionary into the annotator."),
     "C05": ("core", "4 C05",
             "structural-step classification matched against lineage arguments; id-truthiness lint; worklist-loop shape of the lineage walk",
             "Decides that every edit path whose own effect joins or splits components carries a lineage update of the moved side, that a new "
             "node adopts a linked neighbour's lineage, that optional ids are not tested by truthiness and that the downstream lineage walk "
-            "cannot stop early, and that bulk id writes pair each node with a value built from the same collection. Three genuine defects are listed as known findings."),
+            "cannot stop early, and that bulk id writes pair each node with a value built from the same collection. Three genuine defects are listed as known findings. Shared obligations: history shape, R02.6, R02.8, no wholesale replacement of a per-id entry and the neighbour contract (R05.8), lineage key threaded into the annotator (R05.9)."),
     "C06": ("part", "4 C06",
             "effect analysis (who-may-write) + pairing rules inside the track annotator + CFG dominance in the id issuer",
             "Decides cache ownership, write=>bookkeeping pairing on the same node collection, handler exhaustiveness, monotone maxima and "
-            "the reserve-then-draw discipline of new node ids, remove-before-add order of bookkeeping moves (old id == new id), the time ordering behind the neighbour query, that no entry is replaced wholesale, that no query picks list members by position, and that the track and lineage lookups are updated independently of each other. Does not decide that the lookup queries equal a scan of the graph."),
+            "the reserve-then-draw discipline of new node ids, remove-before-add order of bookkeeping moves (old id == new id), the time ordering behind the neighbour query, that no entry is replaced wholesale, that no query picks list members by position, and that the track and lineage lookups are updated independently of each other. Does not decide that the lookup queries equal a scan of the graph. Also: memo discipline of the queries, key names threaded into the annotator, and the special keys of the feature dictionary survive dump_json/from_json (R06.15)."),
     "C07": ("part", "4 C07",
             "effect analysis for the single writer, who-may-call, argument provenance, path counting of the paint decomposition, guard shape",
             "Decides who writes the array with which value coupled to which node-set change, that a stroke decomposes into exactly one "
-            "sub-edit per label recording the pixel group of its own node (the painted label: all groups), previous labels released before the painted label is claimed, that deletion happens only when no pixel remains, that pixels reach the recording primitive unchanged, and the history shape behind undo."),
+            "sub-edit per label recording the pixel group of its own node (the painted label: all groups), previous labels released before the painted label is claimed, that deletion happens only when no pixel remains, that pixels reach the recording primitive unchanged, and the history shape behind undo. Shared obligations: R02.6, R02.8, memo discipline (get_time decides which frame get_pixels scans)."),
     "C08": ("part", "4 C08",
             "trigger matrix (primitive effects x annotator handlers), mutate-then-notify ordering, spacing provenance at kernel calls, own-pixels lint of the region measurement classes",
             "Decides that every mask change of a surviving node triggers recomputation after the array was written, through one kernel with "
-            "the scale-derived spacing on both paths, that update() leaves early only for accepted reasons, that compute() keeps no memo of earlier computations that deactivation does not clear, that the paint update shrinks overlapped nodes before the painted node is measured, and that the per-region measurement objects look at the frame only through `== own label`. No numerical equality."),
+            "the scale-derived spacing on both paths, that update() leaves early only for accepted reasons, that compute() keeps no memo of earlier computations that deactivation does not clear, that the paint update shrinks overlapped nodes before the painted node is measured, and that the per-region measurement objects look at the frame only through `== own label`. No numerical equality. Also: memo discipline, the position key threaded into the annotator, enable_features(recompute) computes every requested key (R08.10), and regionprops is handed the frame unchanged - no crop with a pixel offset (R08.11)."),
     "C09": ("part", "4 C09",
             "trigger matrix + provenance analysis of the two frame indices at every IoU kernel call against the edge endpoints; label-value taint analysis of the kernel; def-use memo detection",
             "Decides triggers, ordering, that bulk and incremental paths hand the kernel the source's and the target's own frames for every "
-            "edge they write (also for frame-skipping edges), that a value is matched on both labels, that the kernel does no arithmetic on label values in the image dtype, and that compute() is memoryless. Not the ratio's value."),
+            "edge they write (also for frame-skipping edges), that a value is matched on both labels, that the kernel does no arithmetic on label values in the image dtype, and that compute() is memoryless. Not the ratio's value. Also: memo discipline, enable_features(recompute) computes every requested key (R09.9), and the IoU write kernel reaches its catch-all loop on every path (R09.10, CFG must-pass)."),
     "C10": ("part", "4 C10",
             "provenance of the protected set, validate-then-change typestate, gating analysis of every annotator write",
             "Decides that all manageable features and time are protected (enabled or not), that unknown keys are rejected before any change, "
-            "that disabled features are never written by update/compute, activation <=> registration, that enabling recomputes every key, and that activate/deactivate change the flags of the requested keys only."),
+            "that disabled features are never written by update/compute, activation <=> registration, that enabling recomputes every key, and that activate/deactivate change the flags of the requested keys only. Also: removing a requested key cannot raise half-way for a key that is valid but not listed (R10.10), and the IoU write kernel writes every edge it is handed (R10.11)."),
     "C11": ("whole*", "4 C11",
             "typestate (clean -> dirty) abstract interpretation over every path of user-action and primitive constructors with inlined callees",
             "Decides that no explicit raise/assert, opaque raising callee or modelled graph lookup on an unvalidated id is reachable after "
             "the first state change (with an inductive step over loops on caller-supplied lists), and that registration/notification come last. Seven families of genuine defects are listed as known "
-            "findings (13 keys). *Exceptions outside the modelled families are not decided."),
+            "findings (13 keys). *Exceptions outside the modelled families are not decided. Also decides (effect analysis) that the queries an edit consults before it has validated write nothing (R11.4)."),
     "C12": ("part", "4 C12",
             "CFG dominance and must-pass-through (validation before construction, uniqueness before renumbering, each structural validator), error-discipline check of validator verdicts, id-truthiness lint",
             "Decides the rejection half: malformed sources cannot reach construction, no validator verdict is dropped, renumbering uses one "
-            "mapping after the uniqueness check without silently losing links, renaming reads from the original container, source ids are never tested by truthiness, a structural validator can be skipped only for a reason about its own input, a builder's header is read on every path before build(), and columns of different dtypes are combined by promotion (never cast to the first column's dtype)."),
+            "mapping after the uniqueness check without silently losing links, renaming reads from the original container, source ids are never tested by truthiness, a structural validator can be skipped only for a reason about its own input, a builder's header is read on every path before build(), and columns of different dtypes are combined by promotion (never cast to the first column's dtype). Also: the missing-value mask travels with its values (R12.11), the names offered for mapping are the table's own (R12.12), integer ids are renumbered only because of the id column (R12.13)."),
     "C13": ("core", "4 C13",
             "fresh-destination / source-only-read discipline, time-index agreement, guard-shape of the relabel shortcut",
             "Decides the no-chaining mechanism (fresh zero destination, masks read only from the source at the written frame), the joint "
-            "offset of graph and id array, that relabelling is skipped only for position-wise equal ids, that the seg-id lookup of a frame is built inside that frame's iteration, and that per-frame image files are stacked in numeric order. Not pixel equality."),
+            "offset of graph and id array, that relabelling is skipped only for position-wise equal ids, that the seg-id lookup of a frame is built inside that frame's iteration, and that per-frame image files are stacked in numeric order. Not pixel equality. Also: the relabelled array is never cast back to a narrow dtype (R13.7) and a loaded seg-id property is not dropped before the relabel decision (R13.8)."),
     "C14": ("part", "4 C14",
             "writer/reader table agreement with constant folding of the axis tables; guard-shape of per-key id detection; id-truthiness lint",
             "Decides that writer and reader agree on attribute keys, registry schema, file names, axis order (ndim 3 and 4) and CSV keys, and "
-            "that loaded ids are kept per key, that the missing-value mask of a loaded property survives renaming, that ids read back are not tested by truthiness, and that a rebuilt export graph keeps edge attributes. Does not decide value equality or third-party formats."),
+            "that loaded ids are kept per key, that the missing-value mask of a loaded property survives renaming, that ids read back are not tested by truthiness, and that a rebuilt export graph keeps edge attributes. Does not decide value equality or third-party formats. Also: columns are combined by promotion (R14.10) and integer ids are not renumbered on the way back in (R14.11)."),
     "C15": ("core", "4 C15",
             "taint analysis of the selection parameter, identity of the closed set across outputs, loop shape / loop invariant of the closure",
             "Decides that the selection reaches rows, subgraph and mask only as its ancestor closure (one set everywhere, membership mask for "
-            "pixels) and that the closure adds the ancestors of every selected node (nx.ancestors per node, a verified worklist helper, or a hand-written parent walk decided by its loop invariant), that facades forward the selection unchanged, and that the export modules keep no memo between exports."),
+            "pixels) and that the closure adds the ancestors of every selected node (nx.ancestors per node, a verified worklist helper, or a hand-written parent walk decided by its loop invariant), that facades forward the selection unchanged, and that the export modules keep no memo between exports. Also: the parent of a row is never decided by truthiness of the parent id (R15.6), and the membership mask uses np.isin without assume_unique / invert on pixel blocks."),
     "C16": ("whole*", "4 C16",
             "interprocedural write-effect analysis over access paths rooted at the tracks object (aliases, views, copies by depth)",
             "Decides that no read-only entry point (exporters, savers, ~50 query methods) can write storage reachable from the tracks object; "
@@ -87,15 +87,15 @@ CHECKS = {
     "C17": ("core", "4 C17",
             "linear-resource pairing of stores/removals with dominating-guard check; threading and order of the pipeline",
             "Decides consume<=>assign (including that every non-empty accumulator entry is flushed), no overwrite, threading and step order of the inference pipeline. Five genuine overwrite defects are "
-            "listed as known findings; two unguarded stores are reviewed exceptions with witnesses."),
+            "listed as known findings; two unguarded stores are reviewed exceptions with witnesses. Also: the computed-feature table handed to the display-name steps shares no key with the standard keys (R17.8)."),
     "C18": ("part", "4 C18",
             "use-based reaching definitions on the CFG of every frame loop; sibling agreement of frame keys; accumulator discipline; provenance of the container / scale handed to the node extractors",
             "Decides the gap clause: no loop-carried source variable can survive an iteration un-refreshed; both siblings select node sets "
-            "by (frame, frame+1); the IoU table accumulates; the IoU kernel does no arithmetic on labels in the image dtype; the builders hand the caller's own container and scale to the extractors (no crop, re-ordering or dropped scale), a given scale is replaced by unit spacing only when it is None, and a node's time attribute is the frame it is filed under. Not distances or IoU values."),
+            "by (frame, frame+1); the IoU table accumulates; the IoU kernel does no arithmetic on labels in the image dtype; the builders hand the caller's own container and scale to the extractors (no crop, re-ordering or dropped scale), a given scale is replaced by unit spacing only when it is None, and a node's time attribute is the frame it is filed under. Not distances or IoU values. Also: building the graph only reads the caller's detections (R18.8, effect analysis) and the IoU pass writes every visited pair that is an edge (R18.9, CFG must-pass)."),
     "C19": ("part", "4 C19",
             "monotone-form check of the running offset, dtype discipline, fresh-destination per-frame masking of relabel-by-track, producer/consumer agreement on the time attribute",
             "Decides that the offset never decreases, that every path into the frame loop has widened the labels to 64 bit and the result stays wide, and that relabel-by-track "
-            "writes per-frame source-only masks into a fresh zero array, one label per component, and that the time attribute it indexes the array with is, at its producers, the frame index of the caller's own (un-cropped) array."),
+            "writes per-frame source-only masks into a fresh zero array, one label per component, and that the time attribute it indexes the array with is, at its producers, the frame index of the caller's own (un-cropped) array. The running offset is initialised outside every loop (one offset across frames and hypotheses)."),
     "C20": ("whole", "4 C20",
             "per-path counting of signal emissions in user-action constructors (nested actions inlined) and the undo/redo facade; who-may-emit",
             "Decides the counting statement per path: 1 emission for a top-level success, 0 when nested or refused, emission last and "
